@@ -33,7 +33,7 @@ func init() {
 	core.Register(&core.Check{
 		ID: "C09", Level: "exploration",
 		Technique: "seeded generative fuzzing of the real entry points in child processes (journalled inputs, recover around every call, process death attributed to the last journalled input) with an intrinsic result-shape monitor and an online step-counter termination envelope (verifhook counters as logical time)",
-		Rule: "case = (entry point, input): request bytes (token sequences, grammar-generated and typed documents, token/byte mutations, lexical corner cases) with random operation names and JSON-like variable maps incl. wrong kinds / deep nesting / huge numbers; unvalidated parsed documents (typed documents mutated at token level, cyclic fragments, unknown names, type-system definitions mixed in, no or several operations) handed directly to ValidateDocument, PlanQuery, Execute, ExecuteSubscription, PlanCache.Get, printer.Print; schemas with and without mutation / subscription roots; zero-valued parameters; non-trivial: the input got past the lexer (>= 2 tokens) and reached validation, planning or execution; distinct by hash(entry, input)",
+		Rule:      "case = (entry point, input): request bytes (token sequences, grammar-generated and typed documents, token/byte mutations, lexical corner cases) with random operation names and JSON-like variable maps incl. wrong kinds / deep nesting / huge numbers; unvalidated parsed documents (typed documents mutated at token level, cyclic fragments, unknown names, type-system definitions mixed in, no or several operations) handed directly to ValidateDocument, PlanQuery, Execute, ExecuteSubscription, PlanCache.Get, printer.Print; schemas with and without mutation / subscription roots; zero-valued parameters; non-trivial: the input got past the lexer (>= 2 tokens) and reached validation, planning or execution; distinct by hash(entry, input)",
 		Assumptions: []string{
 			"termination is decided on logical time: total verifhook steps <= C*(size+8)^3 where size = input bytes, enforced online; a wall-clock watchdog only guards the child and its firing is inconclusive unless confirmed by an isolated re-run",
 			"findings are per panic site (first library frame), not per input",
@@ -379,6 +379,7 @@ func runASTs(c *core.Child, e *envs, m *model.Schema, si int) {
 		"extend type Q { x: Int }",
 		"directive @d on FIELD { __typename }",
 	}
+	special = append(special, crossLevelCycles(m)...)
 	for i := 0; i < n; i++ {
 		id := fmt.Sprintf("s%d/a%d", si, i)
 		if !c.Begin(id) {
@@ -462,7 +463,9 @@ func runZero(c *core.Child) {
 		{"Do(nil variables, nil context, nil root)", func() {
 			checkResult(c, "Do", "{ a }", graphql.Do(graphql.Params{Schema: schema, RequestString: "{ a }"}), false)
 		}},
-		{"Execute(nil AST)", func() { checkResult(c, "Execute", "<nil AST>", graphql.Execute(graphql.ExecuteParams{Schema: schema}), false) }},
+		{"Execute(nil AST)", func() {
+			checkResult(c, "Execute", "<nil AST>", graphql.Execute(graphql.ExecuteParams{Schema: schema}), false)
+		}},
 		{"ExecutePlan(nil plan)", func() {
 			checkResult(c, "ExecutePlan", "<nil plan>", graphql.ExecutePlan(nil, graphql.ExecuteParams{Schema: schema}), false)
 		}},
@@ -490,4 +493,68 @@ func runZero(c *core.Child) {
 		c.Feature("zero-valued-parameters")
 		guarded(c, cs.name, 64, cs.name, cs.f)
 	}
+}
+
+// crossLevelCycles builds documents whose fragment cycle passes THROUGH a
+// field (so each selection set on its own sees every fragment only once):
+// `{ q { ...A } } fragment A on T { f { ...A } }` for every self-referencing
+// (T, f) of the model, and the two-step variant through another type.
+func crossLevelCycles(m *model.Schema) []string {
+	var out []string
+	q := m.Type(m.Query)
+	entry := func(t string) string {
+		for _, f := range q.Fields {
+			if f.Type.Base() == t {
+				need := false
+				for _, a := range f.Args {
+					if a.Type.Kind == "nonnull" {
+						need = true
+					}
+				}
+				if !need {
+					return f.Name
+				}
+			}
+		}
+		return ""
+	}
+	noArgs := func(f *model.FieldDef) bool {
+		for _, a := range f.Args {
+			if a.Type.Kind == "nonnull" {
+				return false
+			}
+		}
+		return true
+	}
+	for _, t := range m.Types {
+		if t.Kind != model.Object || t.Name == m.Query || t.Name == m.Mutation {
+			continue
+		}
+		e := entry(t.Name)
+		if e == "" {
+			continue
+		}
+		for _, f := range t.Fields {
+			if !noArgs(f) {
+				continue
+			}
+			if f.Type.Base() == t.Name {
+				out = append(out, fmt.Sprintf("{ %s { ...A } } fragment A on %s { __typename %s { ...A } }", e, t.Name, f.Name))
+				out = append(out, fmt.Sprintf("{ %s { ...A } } fragment A on %s { %s { ...B } } fragment B on %s { %s { ...A __typename } }", e, t.Name, f.Name, t.Name, f.Name))
+			}
+			u := m.Type(f.Type.Base())
+			if u == nil || u.Kind != model.Object || u.Name == t.Name {
+				continue
+			}
+			for _, g := range u.Fields {
+				if g.Type.Base() == t.Name && noArgs(g) {
+					out = append(out, fmt.Sprintf("{ %s { ...A } } fragment A on %s { %s { %s { ...A } } }", e, t.Name, f.Name, g.Name))
+				}
+			}
+		}
+	}
+	if len(out) > 6 {
+		out = out[:6]
+	}
+	return out
 }
